@@ -15,7 +15,10 @@ use crate::writer::*;
 use serde::Serialize;
 use std::panic::{catch_unwind, AssertUnwindSafe};
 
-pub const NAMES: &[&str] = ALL_ROUTES;
+pub const NAMES: &[&str] = &[
+    R1, R2, R3, R4, R4I, R4J, R4K, R4V, R5, R6, R7A, R7B, R7C, R2S, R2P, R1D, R5P, R6P, R5I, R6I,
+    "toml::Value::try_from", "toml::Table::try_from", "value-encoders",
+];
 
 const TEXT_SERS: &[&str] = &["toml::to_string", "toml::to_string_pretty", "toml_edit::ser::to_string", "toml_edit::ser::to_string_pretty", "toml_edit::ser::to_document"];
 
@@ -47,6 +50,11 @@ pub fn generate(rng: &mut Rng, tier: &str) -> Scenario {
     match rng.below(10) {
         0 | 1 | 2 => sc.fault = FaultSpec::Vis(rng.below(40) as u32, rng.chance(1, 2)),
         _ => {}
+    }
+    // hand-written leaf visitors (visit_i64 / visit_f64 only) in a third of the runs
+    if rng.chance(1, 3) {
+        sc.rhmask |= H9_NARROW;
+        sc.rhseed = rng.next();
     }
     sc
 }
@@ -282,11 +290,23 @@ fn exec_a(sc: &Scenario, verbose: bool, out: &mut RunOut) {
                     }
                     Err(e) => {
                         out.stats.inc("oracle.route_err");
+                        // outside the must-succeed class a text that NO route reads back is C07's business;
+                        // one that some routes read back as the value written and others reject is C13's
+                        let other_ok = res.iter().find(|(r2, x, _)| {
+                            let same_kind = [R7A, R7B, R7C].contains(r2) == [R7A, R7B, R7C].contains(route);
+                            same_kind && matches!(x, Ok(v) if v.canon(true) == want)
+                        });
                         if must {
                             out.violate(
                                 "C13/2",
                                 format!("C13/route-fails-on-own-output/route={route}"),
                                 format!("{route} fails on text obtained by serializing a value of the target type: {}\n--- text ({sname}) ---\n{text}\n--- value text ---\n{vtext:?}", e.rendered),
+                            );
+                        } else if let (Some((r2, _, _)), false) = (other_ok, dup) {
+                            out.violate(
+                                "C13/2",
+                                format!("C13/route-fails-on-own-output-others-read/route={route}"),
+                                format!("{route} fails on text obtained by serializing a value of the target type ({}), while {r2} reads it back as the value written\n--- text ({sname}) ---\n{text}\n--- value text ---\n{vtext:?}", e.rendered),
                             );
                         }
                     }
@@ -343,8 +363,9 @@ fn exec_a(sc: &Scenario, verbose: bool, out: &mut RunOut) {
     // clause 3: try_from gives the same tree as serializing to text and parsing that text
     let text_value = text.as_ref().and_then(|t| catch_unwind(AssertUnwindSafe(|| toml::from_str::<toml::Value>(t).ok())).ok().flatten());
     let text_tree = text_value.as_ref().map(Tree::from_value);
+    let mut try_from_value: Option<toml::Value> = None;
     for name in ["toml::Value::try_from", "toml::Table::try_from"] {
-        if !sc.only.is_empty() && !sc.wants(name) {
+        if !sc.only.is_empty() && !sc.wants(name) && !(name == "toml::Value::try_from" && sc.wants("value-encoders")) {
             continue;
         }
         let cx = Ctx::new(Fault::None, verbose);
@@ -356,6 +377,9 @@ fn exec_a(sc: &Scenario, verbose: bool, out: &mut RunOut) {
             Ok(Ok(SerOut::Value(v))) => {
                 let t = Tree::from_value(&v);
                 out.note(&format!("{t:?}"));
+                if name == "toml::Value::try_from" {
+                    try_from_value = Some(v.clone());
+                }
                 if let Some(tt) = &text_tree {
                     out.stats.inc("oracle.try_from_vs_text");
                     // the model tree unifies NaNs; the two encoding routes must also agree on the sign
@@ -399,24 +423,57 @@ fn exec_a(sc: &Scenario, verbose: bool, out: &mut RunOut) {
         }
     }
 
-    // value-level encoders: toml::ser::ValueSerializer and toml_edit::ser::ValueSerializer agree
-    if sc.only.is_empty() {
+    // value-level encoders (the single-value counterparts of the text route): the text written by
+    // toml::ser::ValueSerializer and by toml_edit::ser::ValueSerializer parses to the same tree, and
+    // that tree is the one Value::try_from gives ("the same tree as serializing it to text and
+    // parsing that text", for a single value). Only successes are compared: which shapes each value
+    // serializer accepts differs by design (toml's rejects struct variants).
+    if sc.only.is_empty() || sc.wants("value-encoders") {
+        let parse_value = |t: &str| -> Option<toml::Value> {
+            use serde::Deserialize;
+            catch_unwind(AssertUnwindSafe(|| toml::Value::deserialize(toml::de::ValueDeserializer::new(t)).ok())).ok().flatten()
+        };
         let mut s = String::new();
         let a = catch_unwind(AssertUnwindSafe(|| w.serialize(toml::ser::ValueSerializer::new(&mut s)).map_err(|e| e.to_string())));
-        match (a, &vtext) {
-            (Err(_), _) => out.stats.inc("probe.value_encoder_panic"),
-            (Ok(Ok(())), Some(vt)) => {
-                // NOT asserted: the single-value *serializers* are not among the routes C13 lists
-                // (toml::ser::ValueSerializer drops the variant name of a root tuple variant, for one).
-                let ta = s.parse::<toml_edit::Value>().ok().map(|v| Tree::from_edit_value(&v));
-                let tb = vt.parse::<toml_edit::Value>().ok().map(|v| Tree::from_edit_value(&v));
-                if ta.is_none() || tb.is_none() || !ta.as_ref().unwrap().eq_unordered(tb.as_ref().unwrap()) {
-                    out.stats.inc("probe.value_encoders_differ");
-                } else {
-                    out.stats.inc("probe.value_encoders_agree");
+        let ta: Option<(String, Option<toml::Value>)> = match a {
+            Err(p) => {
+                out.violate("C13/3", "C13/panic/ser=toml::ser::ValueSerializer".into(), format!("toml::ser::ValueSerializer panicked: {}", panic_msg(&p)));
+                None
+            }
+            Ok(Ok(())) => Some((s.clone(), parse_value(&s))),
+            Ok(Err(_)) => None,
+        };
+        let tb: Option<(String, Option<toml::Value>)> = vtext.as_ref().map(|t| (t.clone(), parse_value(t)));
+        for (name, t) in [("toml::ser::ValueSerializer", &ta), ("toml_edit::ser::ValueSerializer", &tb)] {
+            let Some((txt, parsed)) = t else { continue };
+            out.note(txt);
+            let Some(parsed) = parsed else {
+                out.violate("C13/3", format!("C13/value-encoder-text-unreadable/ser={name}"), format!("{name} returned Ok but its text is not readable as a single value: {txt:?}"));
+                continue;
+            };
+            if let Some(tv) = &try_from_value {
+                out.stats.inc("oracle.try_from_vs_value_text");
+                let (x, y) = (Tree::from_value(parsed), Tree::from_value(tv));
+                if !x.eq_unordered(&y) {
+                    out.violate(
+                        "C13/3",
+                        format!("C13/try_from-differs-from-value-text/ser={name}"),
+                        format!("Value::try_from gives a tree different from parsing the text written by {name}\n try_from: {:?}\n text:     {:?}\n {txt:?}", y.sorted(), x.sorted()),
+                    );
+                } else if nan_signs(parsed) != nan_signs(tv) {
+                    out.violate("C13/3", format!("C13/try_from-differs-from-value-text/nan-sign/ser={name}"), format!("Value::try_from and {name} disagree on the sign of a NaN\n {txt:?}"));
                 }
             }
-            _ => {}
+        }
+        if let (Some((sa, Some(pa))), Some((sb, Some(pb)))) = (&ta, &tb) {
+            out.stats.inc("oracle.value_encoders_agree");
+            if !Tree::from_value(pa).eq_unordered(&Tree::from_value(pb)) {
+                out.violate(
+                    "C13/3",
+                    "C13/value-encoders-differ".into(),
+                    format!("toml::ser::ValueSerializer and toml_edit::ser::ValueSerializer write texts that parse to different trees\n toml:      {sa:?}\n toml_edit: {sb:?}"),
+                );
+            }
         }
     }
 }
